@@ -278,18 +278,24 @@ pub fn gen_config(r: &mut Rng) -> ConfigSpec {
             c.max_random_float = 1f32.to_bits();
         }
     }
-    c.eval_push_limit = match r.below(5) {
+    let epl = match r.below(5) {
         0 => r.range(-1, 10) as i32,
         1 => r.range(10, 100) as i32,
         2 => 1000,
         _ => r.range(100, 1500) as i32,
     };
-    c.growth_cap = match r.below(4) {
-        0 => r.below(5) as usize,
-        1 => r.range(5, 50) as usize,
+    c.eval_push_limit = epl;
+    c.growth_cap = match r.below(16) {
+        0..=3 => r.below(5) as usize,
+        4..=7 => r.range(5, 50) as usize,
+        8 => *r.pick(&[usize::MAX, usize::MAX - 1, i32::MAX as usize, 1 << 40]),
         _ => 500,
     };
-    c.eval_time_limit = *r.pick(&[0u64, 1, 50, 5000, 5000, 5000]);
+    c.eval_time_limit = *r.pick(&[0u64, 1, 50, 5000, 5000, 5000, u64::MAX, u64::MAX / 1000]);
+    if r.chance(1, 16) {
+        // (a huge step limit is a legitimate way to run for ever: not generated)
+        c.eval_push_limit = *r.pick(&[i32::MIN, i32::MIN + 1, -2]);
+    }
     c.new_erc_name_probability = (*r.pick(&[0.0f32, 0.001, 0.001, 0.5, 1.0])).to_bits();
     c.max_points_in_random_expressions = *r.pick(&[0, 1, 2, 3, 25, 25, 25, -25, 100, 200]);
     c.max_points_in_program = *r.pick(&[100, 100, 10, 1000]);
